@@ -20,6 +20,7 @@ RULE = ("dry run of a deterministic problem records the evaluation sequence "
         "kind)")
 RULE += ("  Also: trigger kind 'trust-region point followed by a second-order correction'; requests of the form (target, feasibility_tol) = (f_k, v_k) so that infeasible points trigger; small filters; callbacks that return truthy values but never raise; targets at / beyond the extreme barrier with NaN / inf / huge objective values (-inf <= target satisfies, NaN does not).")
 RULE += (" Requests are judged with the settings as the user STATED them (not the solver's completed options); family tinyviol: a constraint violated by exactly 5e-16 (injected) with tolerance 0.")
+RULE += (' NaN objective values with ordinary targets (-50, 0.5, 50, 1e6).')
 ASSUMPTIONS = [
     "the solver is deterministic (C11), so the rerun reproduces evaluations "
     "1..k bitwise; this is itself verified (prefix comparison) and a mismatch "
